@@ -25,9 +25,11 @@ func sanitizeSelectionSet(ctx *PlanningContext, selectionSet ast.SelectionSet, i
 			result = addSelectionSetToSanitizedResult(result, s)
 		case *ast.FragmentSpread:
 			inlineFragment := &ast.InlineFragment{
-				TypeCondition:    s.Definition.TypeCondition,
-				Directives:       s.Directives,
-				SelectionSet:     s.Definition.SelectionSet,
+				TypeCondition: s.Definition.TypeCondition,
+				Directives:    s.Directives,
+				// the definition is shared by every spread of the fragment, sanitizing rewrites
+				// the fields in place: each spread works on a copy of its own
+				SelectionSet:     copySelectionSet(s.Definition.SelectionSet),
 				ObjectDefinition: s.ObjectDefinition,
 				Position:         s.Position,
 			}
@@ -170,6 +172,29 @@ func addScrubFieldsToSelectionSet(ctx *PlanningContext, selectionSet ast.Selecti
 	addedFields = append(addedFields, common.IDFieldName)
 
 	return selectionSet, addedFields
+}
+
+func copySelectionSet(selectionSet ast.SelectionSet) ast.SelectionSet {
+	if selectionSet == nil {
+		return nil
+	}
+	result := make(ast.SelectionSet, 0, len(selectionSet))
+	for _, selection := range selectionSet {
+		switch s := selection.(type) {
+		case *ast.Field:
+			cpy := *s
+			cpy.SelectionSet = copySelectionSet(s.SelectionSet)
+			result = append(result, &cpy)
+		case *ast.InlineFragment:
+			cpy := *s
+			cpy.SelectionSet = copySelectionSet(s.SelectionSet)
+			result = append(result, &cpy)
+		case *ast.FragmentSpread:
+			cpy := *s
+			result = append(result, &cpy)
+		}
+	}
+	return result
 }
 
 // mergeFieldsWithSameKey joins sibling fields which answer under the same response key
